@@ -439,6 +439,14 @@ fn validate(ctx: &Context<impl Channel>) -> Result<(), Error> {
     if p_out.is_empty() {
         return Err(Error::MissingOutputParties);
     }
+    // The engine assigns the first `total inputs` random shares to the input instructions by
+    // position, so every Input instruction has to be among the first `total inputs` instructions.
+    let num_inputs: usize = circ.input_regs.iter().sum();
+    for (w, inst) in circ.insts.iter().enumerate() {
+        if matches!(inst.op, Op::Input(_)) && w >= num_inputs {
+            return Err(MpcError::InstWithoutInput(w).into());
+        }
+    }
     for (k, output_party) in p_out.iter().enumerate() {
         if *output_party >= p_max {
             return Err(Error::InvalidOutputParty(*output_party));
